@@ -86,7 +86,9 @@ class Reshape(Harness):
                 if nm != "z" and nm not in names: nm = names[0]
                 k = kinds.get(nm, "f")
                 how = choice(f"how_{nm}", ["scalar", "vector", "callable"] if n >= 1 else ["vector", "callable"])
-                if how == "scalar":
+                if how == "scalar" and k == "O":
+                    vals.append([nm, how, symx.SymPyInt(symx.sym_i64(f"v{nm}"))])        # an object column of Python ints: a Python int
+                elif how == "scalar":
                     c = sym_cell(k, f"v{nm}")
                     ctx.assume(z3.Not(isna(c, k)), note="modify: scalar values are not missing (dtype inference of a lone "
                                "missing scalar belongs to C10) and the frame has >= 1 row when a scalar is broadcast")
@@ -190,6 +192,7 @@ class Reshape(Harness):
                     how, v = last[nm]
                     if how == "scalar":
                         kinds = dict(zip(POOL, self.kinds)); k = kinds.get(nm, "f")
+                        if k == "O": k = "i"          # the scalar given for an object column is a Python int: a new int64 column
                         vc = as_cell(v, k)
                         cl.append((f"{nm}: scalar broadcast to nrow", T(len(oc) == n and oc.dtype == KIND_DTYPE[k])))
                         if len(oc) == n and oc.dtype == KIND_DTYPE[k]:
